@@ -161,6 +161,24 @@ def fpiRun (F : List Q → List Q) (mix : Nat → List (List Q) → List (List Q
         let next := if s.k = 0 then y else mix s.k chist' rhist'
         fpiRun F mix tol maxIter fuel { s with y := y, prev := next, k := s.k + 1 } chist' rhist'
 
+/-- the same per-sample control with the convergence test and the give-up test GENERATED from `_end_conditions_met`
+    (`Gen.fpiWithin`, `Gen.fpiGiveUp`); this is what the driver runs. `C06.generated_fpi_is_model`: equal to `fpiRun`. -/
+def fpiRunGen (F : List Q → List Q) (mix : Nat → List (List Q) → List (List Q) → List Q) (tol : Q) (maxIter : Nat) :
+    Nat → FpiState → List (List Q) → List (List Q) → FpiState
+  | 0, s, _, _ => s
+  | fuel + 1, s, chist, rhist =>
+      if s.conv || !s.valid then s else
+      let y := F s.prev
+      let res := List.zipWith (· - ·) y s.prev
+      let conv := Gen.fpiWithin (maxAbsDiff y s.prev) tol
+      let chist' := chist ++ [y]
+      let rhist' := rhist ++ [res]
+      if conv then { s with y := y, conv := true }
+      else if Gen.fpiGiveUp s.k maxIter then { s with y := y, valid := false }
+      else
+        let next := if s.k = 0 then y else mix s.k chist' rhist'
+        fpiRunGen F mix tol maxIter fuel { s with y := y, prev := next, k := s.k + 1 } chist' rhist'
+
 /-- what the caller sees for the loop's coupling outputs of this sample: the value, or NaN -/
 def fpiOutput (s : FpiState) : Option (List Q) := if s.conv then some s.y else none
 
